@@ -181,6 +181,12 @@ def mkfs(cfg, img, workdir, clock=1500000000, rand_seed=1, extra=(), env=None, t
     else:
         with open(img, "wb") as f:
             f.truncate(cfg["size_kib"] * 1024)
+    if cfg.get("badblocks"):
+        # a bad-block list (mke2fs -l): those blocks belong to inode 1 from the start
+        bbf = os.path.join(workdir, tag + ".badblocks")
+        with open(bbf, "w") as f:
+            f.write("".join("%d\n" % b for b in sorted(set(cfg["badblocks"]))))
+        extra = list(extra) + ["-l", bbf]
     pl = Plan([img], None, clock=clock, rand_seed=rand_seed)
     return run_sim(mkfs_argv(cfg, img, extra), pl, workdir, tag=tag, env=env, keep_log=keep_log)
 
@@ -279,7 +285,9 @@ def gen_population(rng, cfg, workdir, scale=1.0, big_dir=None, late_dirs=0, deep
                 a = rng.range(0, 40)
                 cmds.append('fallocate "%s" %d %d' % (path, a, a + rng.range(0, 20)))
         elif kind == "symlink":
-            tlen = rng.weighted([(rng.range(1, 59), 5), (rng.range(60, 200), 3), (rng.range(200, min(bs - 1, 1000)), 1)])
+            # (60 bytes is where a target stops fitting into i_block)
+            tlen = rng.weighted([(rng.range(1, 59), 5), (rng.range(60, 200), 3), (rng.range(200, min(bs - 1, 1000)), 1),
+                                 (rng.choice([59, 60, 60, 61]), 3)])
             target = "".join(NAME_CHARS[rng.below(len(NAME_CHARS))] for _ in range(tlen))
             cmds.append('symlink "%s" "%s"' % (path, target))
             if special_xattrs and "ext_attr" in feats and rng.chance(0.5) and not ("inline_data" in feats and tlen >= 60):
